@@ -14,17 +14,25 @@ OwnNone == ""          \* no nominee
 OwnNoTime == -1        \* no time lock recorded
 OwnershipDelay == 604800          \* 7 days in seconds
 
+\* (type annotations are comments for TLC; Apalache uses them in proofs/OwnershipInd.tla)
+\* @type: (Bool, Str) => Set(Str);
 OwnR(cond, name) == IF cond THEN {name} ELSE {}
 
 \* why-sets (empty = the call succeeds)
+\* @type: ({ admin: Str, pending: Str, minTime: Int }, Str, Bool) => Set(Str);
 OwnTransferWhy(o, s, tvalid) == OwnR(s # o.admin, "unauthorized") \cup OwnR(~tvalid, "invalid_address")
+\* @type: ({ admin: Str, pending: Str, minTime: Int }, Str) => Set(Str);
 OwnRevokeWhy(o, s) == OwnR(s # o.admin, "unauthorized")
+\* @type: ({ admin: Str, pending: Str, minTime: Int }, Str, Int) => Set(Str);
 OwnAcceptWhy(o, s, now) == OwnR(o.minTime # OwnNoTime /\ o.minTime > now, "too_early")
                            \cup OwnR(o.pending = OwnNone \/ o.pending # s, "not_nominee")
 
+\* @type: ({ admin: Str, pending: Str, minTime: Int }, Str, Int) => { admin: Str, pending: Str, minTime: Int };
 OwnTransfer(o, to, now) == [o EXCEPT !.pending = to, !.minTime = now + OwnershipDelay]
+\* @type: ({ admin: Str, pending: Str, minTime: Int }) => { admin: Str, pending: Str, minTime: Int };
 OwnRevoke(o) == [o EXCEPT !.pending = OwnNone, !.minTime = OwnNoTime]
 \* acceptance consumes the nomination (the recorded time stays, as in the code; it is dead
 \* data: no nominee is left who could use it)
+\* @type: ({ admin: Str, pending: Str, minTime: Int }, Str) => { admin: Str, pending: Str, minTime: Int };
 OwnAccept(o, s) == [o EXCEPT !.admin = s, !.pending = OwnNone]
 =============================================================================
